@@ -3,6 +3,7 @@ import GohbaseVerif.Drive.C10
 import GohbaseVerif.Drive.C16
 import GohbaseVerif.Drive.C17
 import GohbaseVerif.Drive.Conn
+import GohbaseVerif.Drive.Sim
 /-!
 Line-protocol driver: one test case per line, `<model> <op> <args…>`; one reply per line:
 `OK tags=…` | `DIFF …` (model ≠ implementation) | `SPEC …` (implementation violates the Lean
@@ -19,6 +20,11 @@ def dispatch (line : String) : String :=
   | "c03" :: rest => Drive.Conn.handle "c03" rest
   | "c18" :: rest => Drive.Conn.handle "c18" rest
   | "c02" :: rest => Drive.Conn.handle "c02" rest
+  | "c04" :: rest => Drive.Sim.handle "c04" rest
+  | "c20" :: rest => Drive.Sim.handle "c20" rest
+  | "c09" :: rest => Drive.Sim.handle "c09" rest
+  | "c13" :: rest => Drive.Sim.handle "c13" rest
+  | "c19" :: rest => Drive.Sim.handle "c19" rest
   | _ => "BAD model"
 
 partial def loop (hin hout : IO.FS.Stream) : IO Unit := do
